@@ -274,6 +274,8 @@ def main(argv=None):
 
     if args.prop.startswith("selftest"):
         from . import selftest
+        if args.prop == "selftest-reference":
+            return selftest.main_reference(args)
         return selftest.main(args)
 
     pid = args.prop.upper()
